@@ -8,7 +8,7 @@ Stay == UNCHANGED x
 
 \* ---- the probe lists ---------------------------------------------------------------------------
 InitSpace == x = 0
-EmitSpace == x = 0 /\ PrintT(ToJson([sec |-> SecProbes, ns |-> NsProbes, dur |-> DurProbes, non |-> NonProbes]))
+EmitSpace == x = 0 /\ PrintT(ToJson([sec |-> SecProbes, ns |-> NsProbes, dur |-> DurProbes, non |-> NonProbes, diff |-> DiffUnits]))
 
 \* ---- instants ------------------------------------------------------------------------------------
 CaseOut(c) ==
@@ -18,6 +18,7 @@ CaseOut(c) ==
    tm |-> UnitText(c.n, c.s, c.f \div 1000000, 3),
    tu |-> UnitText(c.n, c.s, c.f \div 1000, 6),
    tn |-> IF InNsRange(c.n, c.s) THEN UnitText(c.n, c.s, c.f, 9) ELSE "",
+   th |-> HalfText(c.n, c.s),
    iso |-> IsoText(c.n, c.s, 0, 0),
    x  |-> [i \in 1..Len(ps) |-> IF IsParse(ps[i]) THEN ParseInput(ps[i], c.n, c.s, c.f) ELSE ""]]
 InitFixed == x \in FixedCases
@@ -37,6 +38,13 @@ EmitDur == PrintT(ToJson(DurOut(x)))
 IsZeroDur(c) == c.d = 0 /\ c.r = 0
 Positive(c) == IF IsZeroDur(c) THEN [c EXCEPT !.sg = 1] ELSE c
 EmitRandDur == PrintT(ToJson(DurOut(Positive(RandDur(x[2])))))
+
+\* ---- pairs of instants for datediff ------------------------------------------------------------
+DiffOut(c) == [kind |-> "diff", n1 |-> c.n1, s1 |-> c.s1, n2 |-> c.n2, s2 |-> c.s2, t1 |-> SecsText(c.n1, c.s1), t2 |-> SecsText(c.n2, c.s2),
+               iso1 |-> IsoText(c.n1, c.s1, 0, 0), iso2 |-> IsoText(c.n2, c.s2, 0, 0)]
+InitDiff == x \in DiffCases
+EmitDiff == PrintT(ToJson(DiffOut(x)))
+EmitRandDiff == PrintT(ToJson(DiffOut(RandDiff(x[2]))))
 
 \* ---- non-numbers ---------------------------------------------------------------------------------
 InitNon == x \in NonCases
